@@ -11,3 +11,11 @@ package cache
 //@ flow fs-cache-stores-what-was-read C09: func=(*FSCache).ReadFile ; in=cache ; site=store fsEntry.contents ; valuepath=*call ReadFile(*)#0*|contents
 //@ flow fs-cache-stores-current-key C09: func=(*FSCache).ReadFile ; in=cache ; site=store fsEntry.modKey ; valuepath=call ModKey(*)#0
 //@ flow fs-cache-usable-iff-no-error C09: func=(*FSCache).ReadFile ; in=cache ; site=store fsEntry.isModKeyUsable ; valuepath=call ModKey(*)#1==nil
+
+// C20 / C09: the incremental caches are shared by every goroutine of a build and by concurrent builds of one
+// context: their tables may only be touched under their mutex, which is released on every path.
+//@ protect fs-cache-table C20 C09: type=FSCache ; fields=entries ; mutex=mutex ; in=cache
+//@ protect js-cache-table C20 C09: type=JSCache ; fields=entries ; mutex=mutex ; in=cache
+//@ protect css-cache-table C20 C09: type=CSSCache ; fields=entries ; mutex=mutex ; in=cache
+//@ protect json-cache-table C20 C09: type=JSONCache ; fields=entries ; mutex=mutex ; in=cache
+//@ protect source-index-table C20 C08: type=SourceIndexCache ; fields=entries,globEntries,nextSourceIndex ; mutex=mutex ; in=cache
